@@ -180,3 +180,47 @@ Lemma C08_hasattr_all rho e :
 Proof. intros S S' G. apply lift_tree_level; try assumption. apply hasattr_preserves, G. Qed.
 Lemma C08_hasattr_refuted_w : changes rw_hasattr w_hasattr_env w_hasattr.
 Proof. vm_compute. split; [reflexivity|split; [reflexivity|discriminate]]. Qed.
+
+(** * fix-empty-sequence-comparison *)
+From CM Require Import Proofs.TdFacts.
+Definition observed (in_test : bool) (rho : env) (t : expr) : result := obs_at in_test (meaning rho t).
+(** v1 == []  with v1 = () : False -> True;   v1 != [] with v1 = 0 : True -> False *)
+Definition w_es_tuple_env : env := [(1%N, VTuple [])].
+Definition w_es_tuple : expr := ECmp true (EName 1) [(Eq, EList [])].
+Definition w_es_int_env : env := [(1%N, VInt 0)].
+Definition w_es_int : expr := ECmp true (EName 1) [(NotEq, EList [])].
+(** 2 // (v1 == []) with v1 = []: the pinned form printed `2 // not v1` *)
+Definition w_es_parens : expr := EFloorDiv (ci 2) (ECmp true (EName 1) [(Eq, EList [])]).
+Definition w_es_parens_and : expr := ECmp true (ENot true (ECmp true (EName 1) [(Eq, EList [])])) [(Eq, EConst (CBool false))].
+
+Definition C08_empty_seq_statement (cfg : empty_seq_cfg) : Prop :=
+  (* the law: every rewritten comparison compares a value of the display's own type (or one whose evaluation raises) *)
+  (forall in_test rho e, paren_safe e = true -> paren_safe (empty_seq_file cfg in_test e) = true ->
+                         empty_seq_guard cfg in_test rho e = true ->
+                         observed in_test rho (empty_seq_file cfg in_test e) = observed in_test rho e)
+  (* outside: a tuple compared with [], an int compared with [] *)
+  /\ changes (empty_seq_file cfg false) w_es_tuple_env w_es_tuple
+  /\ changes (empty_seq_file cfg false) w_es_int_env w_es_int
+  /\ (is_allpar w_es_int = true /\ observed true w_es_int_env (empty_seq_file cfg true w_es_int) <> observed true w_es_int_env w_es_int)
+  (* parentheses of the replaced comparison *)
+  /\ (if es_parens cfg then wf (empty_seq_file cfg false w_es_parens) = true
+      else wf w_es_parens = true /\ wf (empty_seq_file cfg false w_es_parens) = false).
+Lemma C08_empty_seq_all cfg : C08_empty_seq_statement cfg.
+Proof.
+  split; [|split; [|split; [|split]]].
+  - intros in_test rho e S S' G. unfold observed. rewrite !meaning_safe by assumption.
+    apply empty_seq_file_preserves, G.
+  - destruct cfg as [[]]; vm_compute; (split; [reflexivity|split; [reflexivity|discriminate]]).
+  - destruct cfg as [[]]; vm_compute; (split; [reflexivity|split; [reflexivity|discriminate]]).
+  - destruct cfg as [[]]; vm_compute; (split; [reflexivity|discriminate]).
+  - destruct cfg as [[]]; vm_compute; try reflexivity. split; reflexivity.
+Qed.
+
+(** * literal-or-new-object-identity *)
+(** True is 1 : False -> True (True == 1) *)
+Definition w_id_bool : expr := ECmp true (EConst (CBool true)) [(Is, ci 1)].
+Lemma C08_identity_all rho e :
+  paren_safe e = true -> paren_safe (rw_identity e) = true -> identity_guard rho e = true -> preserves rw_identity rho e.
+Proof. intros S S' G. apply lift_tree_level; try assumption. apply identity_preserves, G. Qed.
+Lemma C08_identity_refuted_w : changes rw_identity [] w_id_bool.
+Proof. vm_compute. split; [reflexivity|split; [reflexivity|discriminate]]. Qed.
